@@ -345,7 +345,7 @@ class Store:
                     logging.warning(
                         "Unable to parse file %s for indexing, skipping.", name
                     )
-                    file_values = {}
+                    continue
                 self.index.add_values(name, etag, file_values)
                 if filter.check_from_indexes(name, file_values):
                     yield (name, file, etag)
